@@ -594,7 +594,7 @@ def normalize_path(path: bytes) -> tuple[bytes, str]:
         if segment == b".":
             pass
         elif segment == b"..":
-            if dotless:
+            if dotless and dotless != [b""]:  # never remove the root of an absolute path
                 dotless.pop()
         else:
             dotless.append(segment)
